@@ -204,7 +204,7 @@ PROPS = {
     "C10": {
         "flavours": ["asan"],
         "level": "fault_enumeration",
-        "runs": {"quick": 16, "thorough": 512},
+        "runs": {"quick": 32, "thorough": 512},
         "det_runs": 2,
         "budget_s": {"quick": 240, "thorough": 3000},
         "shrink_budget": 60,
